@@ -607,11 +607,16 @@ func decodeInet(data []byte) string {
 }
 
 func decodeArray(raw []byte, elemOid int) []interface{} {
-	if len(raw) < 20 {
+	if len(raw) < 12 {
 		return nil
 	}
 	ndim := i32(raw, 0)
-	if ndim <= 0 || ndim > 6 {
+	if ndim == 0 {
+		// PostgreSQL stores every empty array as ndim = 0 without dimension words:
+		// return an empty (non-nil) slice so that it renders as [] and not as null.
+		return []interface{}{}
+	}
+	if len(raw) < 20 || ndim < 0 || ndim > 6 {
 		return nil
 	}
 
